@@ -14,8 +14,10 @@ package c19
 //     dead-end branches (a read that leaves a backbone and stops), late starts (a
 //     read that begins with unrelated sequence and joins a backbone: an extra
 //     source), chimeras (a read that leaves one backbone and continues on a later
-//     one), partial covers (uneven weights along a backbone), and - rarely - a
-//     duplication (a read that jumps back on the same backbone: a cycle),
+//     one), partial covers (uneven weights along a backbone), a "shotgun" of
+//     100..2 500 (thorough 20 000) short reads cut out of a backbone (many
+//     sequences, weights summed over many reads), and - rarely - a duplication
+//     (a read that jumps back on the same backbone: a cycle),
 //   - a last unrelated sequence that completes the graph to the wanted node count.
 //
 // The case stores parameters only (k, a seed, lengths, the list of planted reads
@@ -42,15 +44,15 @@ import (
 	"verifharness/internal/gen"
 )
 
-const bigRule = " Large graphs (check biggraph): 20 000..150 000 k-mers (thorough 400 000), one case in three at 65 530..65 545 nodes, k = 12..31, built from 1..8 backbones whose (k-1)-mers are all distinct plus planted reads (substitution / insertion / deletion bubbles with counts tuned so that the longer side is lighter per node but heavier in total or the reverse, dead ends, late starts, chimeras between backbones, partial covers, rarely a duplication = cycle) and a filler sequence that brings the graph to the exact node count; the case stores parameters and a seed, sequences are rebuilt deterministically. Same oracle as the small graphs (all weights, all edges, HasCycle, HaviestPath and LongestConsensus: valid walk from a source of maximal weight by the linear-time DAG dynamic programme). Non-trivial = at least 20 000 nodes and (cycle or branching)."
+const bigRule = " Large graphs (check biggraph): 20 000..150 000 k-mers (thorough 400 000), one case in three at 65 530..65 545 nodes, k = 12..31, built from 1..8 backbones whose (k-1)-mers are all distinct plus planted reads (substitution / insertion / deletion bubbles with counts tuned so that the longer side is lighter per node but heavier in total or the reverse, dead ends, late starts, chimeras between backbones, partial covers, one case in three with 100..2 500 (thorough 20 000) short reads cut out of a backbone, rarely a duplication = cycle) and a filler sequence that brings the graph to the exact node count; the case stores parameters and a seed, sequences are rebuilt deterministically. Same oracle as the small graphs (all weights, all edges, HasCycle, HaviestPath and LongestConsensus: valid walk from a source of maximal weight by the linear-time DAG dynamic programme). Non-trivial = at least 20 000 nodes and (cycle or branching)."
 
 func init() {
 	evid.Reg("biggraph", checkBigGraph)
-	evid.Tests(evid.Spec{Name: "TestPropBigGraph", Kind: "rapid", Quick: 40, Thorough: 1280, QuickShards: 8, ThoroughShards: 16, TimeoutS: 3000})
+	evid.Tests(evid.Spec{Name: "TestBigGraphs", Kind: "plain", QuickShards: 8, ThoroughShards: 16, TimeoutS: 3000})
 }
 
 type bigFeature struct {
-	Kind  string // sub, ins, del, deadend, latestart, chimera, cover, dup
+	Kind  string // sub, ins, del, deadend, latestart, chimera, cover, shotgun, dup
 	B     int    // backbone
 	Pos   int    // position of the edit on backbone B
 	Len   int    // inserted / deleted / tail / head / covered length
@@ -58,6 +60,7 @@ type bigFeature struct {
 	Count int    // count of the planted read (0 = no count attribute)
 	B2    int    `json:",omitempty"` // chimera: backbone the read continues on
 	Pos2  int    `json:",omitempty"` // chimera / dup: position it continues at
+	N     int    `json:",omitempty"` // shotgun: number of reads of Len nt taken at positions drawn by the builder
 }
 
 type bigCase struct {
@@ -108,10 +111,16 @@ func code2(b byte) uint64 {
 }
 
 // compose returns left + alt + right where alt is altLen new bases, or "" when
-// it cannot be done with new (k-1)-mers only.  Every word of length k-1 of the
-// result that is neither inside left nor inside right must be unused so far;
-// they are marked used on success.  avoid (if not 0) is a base alt[0] must differ from.
-func (b *bigBuilder) compose(left string, altLen int, right string, avoid byte) string {
+// it cannot be done with new (k-1)-mers only.  left and right are pieces of
+// backbones; contL is what follows left on its backbone and preR what precedes
+// right on its backbone: the result coincides with the backbone of left over
+// len(left) + (common prefix of alt+right and contL) bases and with the backbone
+// of right over len(right) + (common suffix of left+alt and preR) bases (the
+// place of an insertion or deletion is not unique when neighbouring bases are
+// equal).  Every word of length k-1 of the result outside these two stretches
+// must be unused so far; they are marked used on success.  avoid (if not 0) is a
+// base alt[0] must differ from.
+func (b *bigBuilder) compose(left string, altLen int, right string, avoid byte, contL, preR string) string {
 	m := b.k - 1
 	for attempt := 0; attempt < 24; attempt++ {
 		pending := map[uint64]struct{}{}
@@ -151,15 +160,30 @@ func (b *bigBuilder) compose(left string, altLen int, right string, avoid byte) 
 			}
 			ok = placed
 		}
-		// words ending in the first m-1 bases of right reach back before right
-		for j := 0; j < len(right) && ok; j++ {
-			w = (w<<2 | code2(right[j])) & b.mask
-			s = append(s, right[j])
-			if j < m-1 && len(s) >= m && len(left)+altLen > 0 {
-				if used(w) {
+		if ok && len(right) > 0 {
+			s = append(s, right...)
+			asLeft := len(left)
+			for asLeft < len(s) && asLeft-len(left) < len(contL) && s[asLeft] == contL[asLeft-len(left)] {
+				asLeft++
+			}
+			asRight := len(right) // counted from the end
+			for asRight < len(s) && asRight-len(right) < len(preR) && s[len(s)-1-asRight] == preR[len(preR)-1-(asRight-len(right))] {
+				asRight++
+			}
+			// words that end in the first m-1 bases of right reach back before right
+			for end := len(left) + altLen + 1; end <= len(s) && end < len(left)+altLen+m && ok; end++ {
+				st := end - m
+				if st < 0 || end <= asLeft || st >= len(s)-asRight {
+					continue
+				}
+				var x uint64
+				for i := st; i < end; i++ {
+					x = x<<2 | code2(s[i])
+				}
+				if used(x) {
 					ok = false
 				} else {
-					pending[w] = struct{}{}
+					pending[x] = struct{}{}
 				}
 			}
 		}
@@ -168,6 +192,9 @@ func (b *bigBuilder) compose(left string, altLen int, right string, avoid byte) 
 				b.seen[x] = struct{}{}
 			}
 			return string(s)
+		}
+		if altLen == 0 {
+			break // nothing random to draw again
 		}
 	}
 	return ""
@@ -185,7 +212,7 @@ func buildBig(c bigCase) (seqs []seqCount, kinds map[string]int, skipped int) {
 	b := &bigBuilder{k: k, rng: splitmix{c.Seed}, seen: map[uint64]struct{}{}, mask: 1<<(2*uint(k-1)) - 1}
 	var bb []string
 	for i, l := range c.Backbones {
-		s := b.compose("", l, "", 0)
+		s := b.compose("", l, "", 0, "", "")
 		bb = append(bb, s)
 		seqs = append(seqs, seqCount{s, c.Counts[i]})
 	}
@@ -213,32 +240,42 @@ func buildBig(c bigCase) (seqs []seqCount, kinds map[string]int, skipped int) {
 			if f.Len < 1 || f.Pos-fl < 0 || f.Pos+del+fl > len(s) {
 				break
 			}
-			read = b.compose(s[f.Pos-fl:f.Pos], alt, s[f.Pos+del:f.Pos+del+fl], avoid)
+			read = b.compose(s[f.Pos-fl:f.Pos], alt, s[f.Pos+del:f.Pos+del+fl], avoid, s[f.Pos:], s[:f.Pos+del])
 		case "deadend":
 			if f.Len < 1 || f.Pos-fl < 0 || f.Pos > len(s) {
 				break
 			}
-			read = b.compose(s[f.Pos-fl:f.Pos], f.Len, "", 0)
+			read = b.compose(s[f.Pos-fl:f.Pos], f.Len, "", 0, "", "")
 		case "latestart":
 			if f.Len < 1 || f.Pos < 0 || f.Pos+fl > len(s) {
 				break
 			}
-			read = b.compose("", f.Len, s[f.Pos:f.Pos+fl], 0)
+			read = b.compose("", f.Len, s[f.Pos:f.Pos+fl], 0, "", s[:f.Pos])
 		case "chimera":
 			if f.B2 <= f.B || f.B2 >= len(bb) || f.Pos-fl < 0 || f.Pos > len(s) || f.Pos2 < 0 || f.Pos2+fl > len(bb[f.B2]) {
 				break
 			}
-			read = b.compose(s[f.Pos-fl:f.Pos], 0, bb[f.B2][f.Pos2:f.Pos2+fl], 0)
+			read = b.compose(s[f.Pos-fl:f.Pos], 0, bb[f.B2][f.Pos2:f.Pos2+fl], 0, s[f.Pos:], bb[f.B2][:f.Pos2])
 		case "dup": // jumps back on the same backbone: a cycle
 			if f.Pos2 < 0 || f.Pos2 >= f.Pos || f.Pos-fl < 0 || f.Pos > len(s) || f.Pos2+fl > len(s) {
 				break
 			}
-			read = b.compose(s[f.Pos-fl:f.Pos], 0, s[f.Pos2:f.Pos2+fl], 0)
+			read = b.compose(s[f.Pos-fl:f.Pos], 0, s[f.Pos2:f.Pos2+fl], 0, s[f.Pos:], s[:f.Pos2])
 		case "cover":
 			if f.Len < 1 || f.Pos < 0 || f.Pos+f.Len > len(s) {
 				break
 			}
 			read = s[f.Pos : f.Pos+f.Len]
+		case "shotgun": // many reads: pieces of the backbone
+			if f.Len < 1 || f.Len > len(s) || f.N < 1 {
+				break
+			}
+			for i := 0; i < f.N; i++ {
+				from := int(b.rng.next() % uint64(len(s)-f.Len+1))
+				seqs = append(seqs, seqCount{s[from : from+f.Len], f.Count})
+			}
+			kinds[f.Kind]++
+			continue
 		}
 		if read == "" {
 			skipped++
@@ -255,7 +292,7 @@ func buildBig(c bigCase) (seqs []seqCount, kinds map[string]int, skipped int) {
 			}
 		}
 		if miss := c.Target - len(distinct); miss > 0 {
-			if s := b.compose("", miss+k-1, "", 0); s != "" {
+			if s := b.compose("", miss+k-1, "", 0, "", ""); s != "" {
 				seqs = append(seqs, seqCount{s, 0})
 				kinds["filler"]++
 			}
@@ -469,6 +506,18 @@ func bigClasses(c bigCase, b *bigModel) (bool, []string) {
 			cl = append(cl, "big:planted_"+kind)
 		}
 	}
+	maxw := 0
+	for _, w := range b.want {
+		maxw = max(maxw, w)
+	}
+	if maxw > 1<<32 {
+		cl = append(cl, "big:weight>2^32")
+	} else if maxw > 1<<16 {
+		cl = append(cl, "big:weight>2^16")
+	}
+	if len(b.seqs) > 1000 {
+		cl = append(cl, "big:more_than_1000_sequences")
+	}
 	switch {
 	case c.K >= 30:
 		cl = append(cl, "big:k>=30")
@@ -483,7 +532,7 @@ func bigClasses(c bigCase, b *bigModel) (bool, []string) {
 // and heavier in total, "short" makes the shorter side win in total, anything
 // else is free.  The variant side has k-1+ins nodes, the backbone side k-1+del.
 func tunedCount(t *rapid.T, relation string, k, cb, ins, del int) int {
-	free := rapid.SampledFrom([]int{0, 1, 2, 3, 5, 10, 50, 1000, 4000}).Draw(t, "count")
+	free := rapid.SampledFrom([]int{0, 1, 2, 3, 5, 10, 50, 1000, 4000, 70000, 1 << 33}).Draw(t, "count")
 	short, long := k-1, k-1+ins+del // ins or del is 0
 	switch {
 	case relation == "long" && ins > 0: // variant is the long side: cb*short < cv*long, cv < cb
@@ -538,18 +587,22 @@ func genBigGraph(t *rapid.T) bigCase {
 			l = l * uni(30, 100) / 100
 		}
 		c.Backbones = append(c.Backbones, max(l, 8*c.K))
-		c.Counts = append(c.Counts, rapid.SampledFrom([]int{0, 1, 2, 3, 5, 10, 50, 1000, 3000}).Draw(t, "backbone_count"))
+		c.Counts = append(c.Counts, rapid.SampledFrom([]int{0, 1, 2, 3, 5, 10, 50, 1000, 3000, 66000}).Draw(t, "backbone_count"))
 	}
 	kindsOf := []string{"sub", "ins", "ins", "ins", "del", "del", "del", "deadend", "latestart", "chimera", "cover"}
 	if rapid.IntRange(0, 9).Draw(t, "with_cycle") == 0 {
 		kindsOf = append(kindsOf, "dup")
 	}
+	manyReads := rapid.IntRange(0, 2).Draw(t, "many_reads") == 0
 	maxPlanted := evid.Pick(6, 12)
 	for b := 0; b < nb; b++ {
 		l := c.Backbones[b]
 		cb := max(1, c.Counts[b])
 		for i := rapid.IntRange(1, maxPlanted).Draw(t, "nplanted"); i > 0; i-- {
 			f := bigFeature{Kind: rapid.SampledFrom(kindsOf).Draw(t, "kind"), B: b}
+			if manyReads && b == 0 && i == 1 {
+				f.Kind = "shotgun"
+			}
 			f.Flank = c.K - 1 + rapid.SampledFrom([]int{0, 0, 1, 5, 40}).Draw(t, "flank")
 			relation := rapid.SampledFrom([]string{"long", "long", "short", "free"}).Draw(t, "relation")
 			switch f.Kind {
@@ -582,6 +635,10 @@ func genBigGraph(t *rapid.T) bigCase {
 				f.Pos = uni(f.Flank+1, l-f.Flank)
 				f.Pos2 = uni(0, min(f.Pos-1, l-f.Flank))
 				f.Count = tunedCount(t, "free", c.K, cb, 0, 0)
+			case "shotgun":
+				f.Len = gen.Len(t, "readlen", c.K-1, 400, c.K, c.K+1)
+				f.N = uni(100, evid.Pick(2500, 20000))
+				f.Count = rapid.SampledFrom([]int{0, 0, 1, 2, 7}).Draw(t, "count")
 			case "cover":
 				f.Len = uni(c.K, l)
 				f.Pos = uni(0, l-f.Len)
@@ -593,14 +650,24 @@ func genBigGraph(t *rapid.T) bigCase {
 	return c
 }
 
-func TestPropBigGraph(t *testing.T) {
-	rapid.Check(t, func(rt *rapid.T) {
-		c := genBigGraph(rt)
+// TestBigGraphs is a plain test: the driver gives neighbouring rapid seeds to the
+// shards of a rapid test and rapid derives the seeds of its first checks from
+// them by small increments, so that with a handful of (expensive) checks per
+// shard many cases would be drawn twice.  Every case gets its own seed here.
+func TestBigGraphs(t *testing.T) {
+	cases := evid.Pick(32, 480)
+	shard, n := evid.Shard(), evid.NShards()
+	g := rapid.Custom(genBigGraph)
+	for i := 0; i < cases; i++ {
+		if i%n != shard {
+			continue
+		}
+		c := g.Example(int(evid.Hash(evid.Seed(), "biggraph", i) >> 1))
 		b := modelBig(c)
 		nt, cl := bigClasses(c, b)
 		evid.Eval("biggraph", evid.Hash(fmt.Sprintf("%+v", c)), nt, c, cl...)
 		if err := checkBigModel(c, b); err != nil {
-			evid.Fail(rt, "biggraph", c, err)
+			evid.Fail(t, "biggraph", c, err)
 		}
-	})
+	}
 }
